@@ -49,6 +49,7 @@ type c08Expr struct {
 	Name  string     `json:"s,omitempty"` // var name, keyword, prim op, let variable, callee
 	Args  []*c08Expr `json:"a,omitempty"` // prim: 2, if: 3, let: init, body; call: arguments
 	Style int        `json:"y,omitempty"` // how the implementation text spells a let / an if (the meaning is the same)
+	Sp    int        `json:"p,omitempty"` // call: spelling of the function symbol (letter case, package prefix)
 }
 
 // let styles: (let ((x v)) b) | (let* ((x v)) b) | (funcall (lambda (x) b) v) | ((lambda (x) b) v)
@@ -80,6 +81,8 @@ type c08Def struct {
 	Key    []c08Default `json:"key,omitempty"`
 	Aux    []c08Aux     `json:"aux,omitempty"`
 	Body   *c08Expr     `json:"body"`
+	Binds  []c08Aux     `json:"binds,omitempty"` // (let (binds) (defun …)): variables captured by the definition
+	Sp     int          `json:"sp,omitempty"`    // spelling of the name in the defun form
 }
 
 // every variable a body may use
@@ -94,7 +97,36 @@ func (d *c08Def) vars() []string {
 	for _, a := range d.Aux {
 		vs = append(vs, a.Name)
 	}
+	for _, b := range d.Binds {
+		vs = append(vs, b.Name)
+	}
 	return vs
+}
+
+// c08Spell spells a symbol: bit 0 of sp = package prefix (call sites only), the other bits = which
+// letters are upper case (cyclically). Symbols are case-insensitive; cl-user is the current package.
+func c08Spell(name string, sp int) string {
+	if sp == 0 {
+		return name
+	}
+	mask := sp >> 2
+	b := []byte(name)
+	k := 0
+	for i, ch := range b {
+		if ch >= 'a' && ch <= 'z' {
+			if mask>>(k%12)&1 == 1 {
+				b[i] = ch - 32
+			}
+			k++
+		}
+	}
+	switch sp & 3 {
+	case 1:
+		return "common-lisp-user::" + string(b)
+	case 2:
+		return "CL-User::" + string(b)
+	}
+	return string(b)
 }
 
 // a step of a history
@@ -104,6 +136,7 @@ type c08Step struct {
 	Expr *c08Expr `json:"expr,omitempty"`
 	J    int      `json:"j,omitempty"`    // again: index among the eval steps so far
 	Name string   `json:"name,omitempty"` // undef: the function
+	Sp   int      `json:"sp,omitempty"`   // undef: spelling of the symbol
 	Tag  string   `json:"tag,omitempty"`
 }
 
@@ -196,7 +229,7 @@ func (e *c08Expr) render(b *strings.Builder, mangle func(string) string, styled 
 			b.WriteByte(')')
 		}
 	case "call":
-		b.WriteString("(" + mangle(e.Name))
+		b.WriteString("(" + c08Spell(mangle(e.Name), e.Sp))
 		for _, a := range e.Args {
 			b.WriteByte(' ')
 			sub(a)
@@ -255,14 +288,37 @@ func (s c08Step) text(mangle func(string) string, styled bool) string {
 	case "def":
 		var ll strings.Builder
 		s.Def.lambdaList(&ll, mangle, styled)
-		b.WriteString("(defun " + mangle(s.Def.Name) + " (" + ll.String() + ") ")
+		name := c08Spell(mangle(s.Def.Name), s.Def.Sp)
+		if len(s.Def.Binds) > 0 {
+			var bs strings.Builder
+			for i, bd := range s.Def.Binds {
+				if i > 0 {
+					bs.WriteByte(' ')
+				}
+				bs.WriteString("(" + bd.Name + " ")
+				bd.Init.render(&bs, mangle, styled)
+				bs.WriteByte(')')
+			}
+			if styled {
+				b.WriteString("(let (" + bs.String() + ") (defun " + name + " (" + ll.String() + ") ")
+				s.Def.Body.render(&b, mangle, styled)
+				b.WriteString("))")
+			} else {
+				b.WriteString("(defun-in (" + bs.String() + ") " + name + " (" + ll.String() + ") ")
+				s.Def.Body.render(&b, mangle, styled)
+				b.WriteByte(')')
+			}
+			break
+		}
+		b.WriteString("(defun " + name + " (" + ll.String() + ") ")
 		s.Def.Body.render(&b, mangle, styled)
 		b.WriteByte(')')
 	case "undef":
+		name := c08Spell(mangle(s.Name), s.Sp&^3)
 		if styled {
-			b.WriteString("(fmakunbound '" + mangle(s.Name) + ")")
+			b.WriteString("(fmakunbound '" + name + ")")
 		} else {
-			b.WriteString("(undef " + mangle(s.Name) + ")")
+			b.WriteString("(undef " + name + ")")
 		}
 	case "eval":
 		s.Expr.render(&b, mangle, styled)
@@ -341,6 +397,9 @@ func (d *c08Def) sites(out *[][2]string) {
 	for _, a := range d.Aux {
 		a.Init.sites(false, out)
 	}
+	for _, b := range d.Binds {
+		b.Init.sites(false, out)
+	}
 }
 
 // ---------------------------------------------------------------------------------------------
@@ -350,6 +409,7 @@ func (d *c08Def) sites(out *[][2]string) {
 
 type c08Filter struct {
 	defs  map[string]*c08Def
+	cenv  map[string]map[string]c08V // captured variables of the current definition of a name
 	steps int
 	ok    bool
 }
@@ -397,6 +457,18 @@ func (f *c08Filter) eval(e *c08Expr, env map[string]c08V, depth int) (c08V, bool
 		case "-":
 			r = a.n - b.n
 		case "*":
+			// operands are bounded by c08MaxMag (2^40): the product must be checked before it can wrap
+			ua, ub := a.n, b.n
+			if ua < 0 {
+				ua = -ua
+			}
+			if ub < 0 {
+				ub = -ub
+			}
+			if ua != 0 && ub > c08MaxMag/ua {
+				f.ok = false
+				return c08V{}, false
+			}
 			r = a.n * b.n
 		case "<":
 			if a.n < b.n {
@@ -452,6 +524,11 @@ func (f *c08Filter) eval(e *c08Expr, env map[string]c08V, depth int) (c08V, bool
 		if !okb {
 			f.ok = false // wrong argument count / malformed keywords: not generated on purpose
 			return c08V{}, false
+		}
+		for k, v := range f.cenv[e.Name] {
+			if _, has := env2[k]; !has {
+				env2[k] = v
+			}
 		}
 		for _, a := range d.Aux {
 			v, ok := f.eval(a.Init, env2, depth+1)
@@ -522,16 +599,30 @@ func c08Bind(d *c08Def, vals []c08V) (map[string]c08V, bool) {
 
 // c08Admissible runs the history through the filter.
 func c08Admissible(steps []c08Step) bool {
-	f := &c08Filter{defs: map[string]*c08Def{}, ok: true}
+	f := &c08Filter{defs: map[string]*c08Def{}, cenv: map[string]map[string]c08V{}, ok: true}
 	var exprs []*c08Expr
 	total := 0
 	for _, s := range steps {
 		f.steps = 0
 		switch s.Kind {
 		case "def":
-			f.defs[s.Def.Name] = s.Def
+			cenv := map[string]c08V{}
+			okd := true
+			for _, bd := range s.Def.Binds {
+				v, ok := f.eval(bd.Init, map[string]c08V{}, 0)
+				if !ok {
+					okd = false // the let fails: the function is not (re)defined
+					break
+				}
+				cenv[bd.Name] = v
+			}
+			if okd {
+				f.defs[s.Def.Name] = s.Def
+				f.cenv[s.Def.Name] = cenv
+			}
 		case "undef":
 			delete(f.defs, s.Name)
+			delete(f.cenv, s.Name)
 		case "eval":
 			exprs = append(exprs, s.Expr)
 			f.eval(s.Expr, map[string]c08V{}, 0)
@@ -560,6 +651,7 @@ type c08Program struct {
 }
 
 type c08Gen struct {
+	capN  int // captured variables get names that are unique in the program (c0, d0, c1, …)
 	rng   *lib.Rng
 	funcs []*c08Def // signatures of the functions that may be called (params known)
 }
@@ -696,14 +788,30 @@ func (g *c08Gen) callOf(callee *c08Def, counter *c08Expr, arg func() *c08Expr) *
 			}
 		}
 	}
-	return c08Call(callee.Name, args...)
+	e := c08Call(callee.Name, args...)
+	e.Sp = g.spelling(true)
+	return e
+}
+
+// spelling of a function symbol: mostly as defined, sometimes other letter case, at call sites
+// sometimes with the package prefix
+func (g *c08Gen) spelling(callSite bool) int {
+	r := g.rng
+	if !r.Chance(22) {
+		return 0
+	}
+	sp := (r.Intn(4095) + 1) << 2
+	if callSite && r.Chance(35) {
+		sp |= 1 + r.Intn(2)
+	}
+	return sp
 }
 
 // lambda list of a generated function: the counter n, up to two more required parameters and
 // sometimes &optional / &key parameters with constant defaults
 func (g *c08Gen) signature(name string) *c08Def {
 	r := g.rng
-	d := &c08Def{Name: name, Params: []string{"n"}}
+	d := &c08Def{Name: name, Params: []string{"n"}, Sp: g.spelling(true)}
 	d.Params = append(d.Params, []string{"a", "b"}[:r.Intn(3)]...)
 	if r.Chance(30) {
 		for _, o := range []string{"o", "p"}[:1+r.Intn(2)] {
@@ -719,9 +827,26 @@ func (g *c08Gen) signature(name string) *c08Def {
 }
 
 // &aux variables (init forms evaluated on every call, may call functions of higher rank) and body
-func (g *c08Gen) fill(i int, d *c08Def) {
+func (g *c08Gen) fill(i int, d *c08Def, callsInBinds bool) {
 	r := g.rng
 	d.Aux = nil
+	d.Binds = nil
+	if r.Chance(25) {
+		// the defun sits inside a let and captures its variables
+		for _, x := range []string{"c", "d"}[:1+r.Intn(2)] {
+			var init *c08Expr
+			switch {
+			case callsInBinds && r.Chance(40):
+				init = g.expr(-1, 2, nil, false, true)
+			case r.Chance(50):
+				init = c08Prim("+", c08Const(int64(r.Intn(9))), c08Const(int64(r.Intn(5))))
+			default:
+				init = c08Const(int64(r.Intn(13)) - 3)
+			}
+			d.Binds = append(d.Binds, c08Aux{Name: fmt.Sprintf("%s%d", x, g.capN), Init: init})
+		}
+		g.capN++
+	}
 	vars := d.vars()
 	if r.Chance(35) {
 		for _, x := range []string{"u", "w"}[:1+r.Intn(2)] {
@@ -776,8 +901,9 @@ func (g *c08Gen) program() *c08Program {
 	for i := 0; i < k; i++ {
 		g.funcs = append(g.funcs, g.signature(fmt.Sprintf("f%d", i)))
 	}
+	g.capN = 0
 	for i, d := range g.funcs {
-		g.fill(i, d)
+		g.fill(i, d, false)
 	}
 	p := &c08Program{Defs: g.funcs}
 	// body expressions
@@ -809,15 +935,15 @@ func (g *c08Gen) program() *c08Program {
 	redefine := func(i int, tag string) {
 		// a new definition of an existing function: same lambda list up to &aux, new &aux and body
 		old := g.funcs[i]
-		nd := &c08Def{Name: old.Name, Params: old.Params, Opt: old.Opt, Key: old.Key}
-		g.fill(i, nd)
+		nd := &c08Def{Name: old.Name, Params: old.Params, Opt: old.Opt, Key: old.Key, Sp: g.spelling(true)}
+		g.fill(i, nd, true)
 		p.Tail = append(p.Tail, c08Step{Kind: "def", Def: nd, Tag: tag})
 	}
 	newCaller := func(q int, suffix string) {
 		// a caller defined now (compiled against the current cells), and evaluated
 		nm := fmt.Sprintf("g%d%s", q, suffix)
-		nd := &c08Def{Name: nm, Params: []string{"n", "a"}}
-		g.fill(-1, nd) // rank -1: may call every function unguarded, the counter is a constant
+		nd := &c08Def{Name: nm, Params: []string{"n", "a"}, Sp: g.spelling(false)}
+		g.fill(-1, nd, true) // rank -1: may call every function unguarded, the counter is a constant
 		p.Tail = append(p.Tail, c08Step{Kind: "def", Def: nd, Tag: "newcaller"})
 		evalStep(c08Call(nm, c08Const(int64(r.Intn(3))), c08Const(int64(r.Intn(9)))))
 	}
@@ -834,7 +960,7 @@ func (g *c08Gen) program() *c08Program {
 		case 3:
 			// fmakunbound: every caller fails; callers compiled in between; then defined again
 			i := r.Intn(len(g.funcs))
-			p.Tail = append(p.Tail, c08Step{Kind: "undef", Name: g.funcs[i].Name})
+			p.Tail = append(p.Tail, c08Step{Kind: "undef", Name: g.funcs[i].Name, Sp: g.spelling(false)})
 			againAll()
 			ev := "undef"
 			if r.Chance(50) {
@@ -942,6 +1068,9 @@ func c08Show(v slip.Object, suffix string) string {
 		}
 		if strings.HasPrefix(s, ":") {
 			return "k:" + s[1:]
+		}
+		if i := strings.LastIndexByte(s, ':'); i >= 0 {
+			s = s[i+1:] // a package qualified function name
 		}
 		return "y:" + strings.TrimSuffix(s, suffix)
 	}
@@ -1411,7 +1540,7 @@ func c08Construct(steps []c08Step, at int) string {
 			}
 		}
 	}
-	lambdaList := false
+	lambdaList, closure := false, false
 	for i := 0; i <= at && i < len(steps); i++ {
 		s := steps[i]
 		switch s.Kind {
@@ -1424,6 +1553,9 @@ func c08Construct(steps []c08Step, at int) string {
 			}
 			if len(s.Def.Opt)+len(s.Def.Key)+len(s.Def.Aux) > 0 {
 				lambdaList = true
+			}
+			if len(s.Def.Binds) > 0 {
+				closure = true
 			}
 			note(s.Def)
 			defined[s.Def.Name] = i
@@ -1459,6 +1591,9 @@ func c08Construct(steps []c08Step, at int) string {
 	}
 	if lambdaList {
 		extra += " lambda-list"
+	}
+	if closure {
+		extra += " closure"
 	}
 	return fmt.Sprintf("step=%s redefs=%s fwd=%s%s", kind, rd, fwd, extra)
 }
@@ -1621,6 +1756,82 @@ func c08SweepCells() []c08Cell {
 		gs := &c08Def{Name: "g", Params: []string{"x"}, Body: cnd}
 		cells = append(cells, c08Cell{fmt.Sprintf("let-style-%d/cond", style), []c08Step{def(gs, ""), def(h(0), ""), ev(c08Call("g", c08Const(3))), ev(c08Call("g", c08Const(9))), ag(0), ag(1),
 			def(h(1), "redef"), ag(0), undef("h"), ag(0), ag(1)}})
+	}
+	// closures: a defun inside a let capturing its variables — first definition, with a placeholder
+	// already registered (caller first), as 2nd and 3rd definition, after fmakunbound; the captured
+	// value computed by a call; everything evaluated repeatedly
+	{
+		clo := func(capName string, init *c08Expr, op string) *c08Def {
+			return &c08Def{Name: "f", Params: []string{"x"}, Binds: []c08Aux{{Name: capName, Init: init}},
+				Body: c08Prim(op, c08Var("x"), c08Var(capName))}
+		}
+		caller := func(name string) *c08Def {
+			return &c08Def{Name: name, Params: []string{"x"}, Body: c08Call("f", c08Prim("+", c08Var("x"), c08Const(1)))}
+		}
+		cg := func(name string, n int64) *c08Expr { return c08Call(name, c08Const(n)) }
+		cells = append(cells,
+			c08Cell{"closure/first", []c08Step{def(clo("c0", c08Const(5), "+"), ""), ev(cg("f", 1)), ev(cg("f", 2)), ag(0), def(caller("g"), ""), ev(cg("g", 3)), ag(2)}},
+			c08Cell{"closure/caller-first", []c08Step{def(caller("g"), ""), ev(cg("g", 3)), def(clo("c0", c08Const(5), "+"), "late"), ag(0), ev(cg("g", 4)), ag(0), ag(1)}},
+			c08Cell{"closure/redefine", []c08Step{def(clo("c0", c08Const(5), "+"), ""), def(caller("g"), ""), ev(cg("g", 3)), def(clo("c1", c08Const(7), "*"), "redef"), ag(0), ev(cg("f", 2)),
+				def(clo("c2", c08Prim("+", c08Const(1), c08Const(2)), "-"), "redef"), ag(0), ag(1), def(caller("h"), ""), ev(cg("h", 5)), ag(0)}},
+			c08Cell{"closure/redefine-plain", []c08Step{def(clo("c0", c08Const(5), "+"), ""), def(caller("g"), ""), ev(cg("g", 3)),
+				def(&c08Def{Name: "f", Params: []string{"x"}, Body: c08Prim("*", c08Var("x"), c08Const(2))}, "redef"), ag(0), def(clo("c1", c08Const(9), "-"), "redef"), ag(0)}},
+			c08Cell{"closure/undefine-redefine", []c08Step{def(clo("c0", c08Const(5), "+"), ""), def(caller("g"), ""), ev(cg("g", 3)), undef("f"), ag(0), def(clo("c1", c08Const(7), "*"), "redef-after-undef"), ag(0), ag(0)}},
+			c08Cell{"closure/captured-call", []c08Step{def(h(0), ""), def(caller("g"), ""), def(clo("c0", c08Call("h", c08Const(1), c08Const(2)), "+"), ""), ev(cg("g", 3)),
+				def(clo("c1", c08Call("g", c08Const(1)), "*"), "redef"), ag(0), ev(cg("f", 2)), ag(0)}},
+			c08Cell{"closure/let-fails", []c08Step{def(clo("c0", c08Const(5), "+"), ""), def(caller("g"), ""), def(clo("c1", c08Call("nofn", c08Const(1)), "*"), "redef"), ev(cg("g", 3)), ag(0)}},
+			c08Cell{"closure/two-functions", []c08Step{def(clo("c0", c08Const(5), "+"), ""),
+				def(&c08Def{Name: "f2", Params: []string{"x"}, Binds: []c08Aux{{Name: "c1", Init: c08Const(100)}}, Body: c08Prim("+", c08Call("f", c08Var("x")), c08Var("c1"))}, ""),
+				ev(cg("f2", 1)), ag(0), def(clo("c2", c08Const(6), "*"), "redef"), ag(0)}},
+		)
+	}
+	// spelling: symbols are not case sensitive and may carry the package prefix
+	for _, p := range positions {
+		up := func(e *c08Expr, sp int) *c08Expr {
+			// respell every call of h in e
+			var walk func(x *c08Expr) *c08Expr
+			walk = func(x *c08Expr) *c08Expr {
+				cp := *x
+				cp.Args = make([]*c08Expr, len(x.Args))
+				for i, a := range x.Args {
+					cp.Args[i] = walk(a)
+				}
+				if cp.Kind == "call" && cp.Name == "h" {
+					cp.Sp = sp
+				}
+				return &cp
+			}
+			return walk(e)
+		}
+		callG := c08Call("g", c08Const(3))
+		for _, v := range []struct {
+			name string
+			sp   int
+		}{{"upper", 5 << 2}, {"qualified", 1}, {"qualified-upper", 3<<2 | 2}} {
+			g := &c08Def{Name: "g", Params: []string{"x"}, Body: up(p.body(callH()), v.sp)}
+			cells = append(cells,
+				c08Cell{"spelling-" + v.name + "/forward/" + p.name, []c08Step{def(g, ""), def(h(0), ""), ev(callG), ag(0), def(h(1), "redef"), ag(0)}},
+				c08Cell{"spelling-" + v.name + "/backward/" + p.name, []c08Step{def(h(0), ""), def(g, ""), ev(callG), ag(0), undef("h"), ag(0), def(h(1), "redef-after-undef"), ag(0)}},
+			)
+		}
+	}
+	{
+		hU := h(0)
+		hU.Sp = 7 << 2
+		gU := &c08Def{Name: "g", Params: []string{"x"}, Body: callH(), Sp: 2 << 2}
+		callGU := c08Call("g", c08Const(3))
+		callGU.Sp = 9 << 2
+		cells = append(cells,
+			c08Cell{"spelling-defun-upper/backward", []c08Step{def(hU, ""), def(gU, ""), ev(c08Call("g", c08Const(3))), ev(callGU), ag(0)}},
+			c08Cell{"spelling-defun-upper/forward", []c08Step{def(gU, ""), ev(c08Call("g", c08Const(3))), def(hU, "late"), ag(0), ev(callGU)}},
+			c08Cell{"spelling-defun-upper/redefine", []c08Step{def(h(0), ""), def(gU, ""), ev(callGU), def(func() *c08Def { d := h(1); d.Sp = 11 << 2; return d }(), "redef"), ag(0)}},
+			c08Cell{"spelling-defun-qualified", []c08Step{def(gU, ""), ev(callGU), def(func() *c08Def { d := h(0); d.Sp = 4<<2 | 1; return d }(), "late"), ag(0),
+				def(func() *c08Def {
+					d := &c08Def{Name: "h", Params: []string{"a", "b"}, Binds: []c08Aux{{Name: "c0", Init: c08Const(7)}}, Body: c08Prim("+", c08Prim("*", c08Var("a"), c08Var("c0")), c08Var("b")), Sp: 2}
+					return d
+				}(), "redef"), ag(0), ag(0)}},
+			c08Cell{"spelling-undef-upper", []c08Step{def(h(0), ""), def(gU, ""), ev(callGU), c08Step{Kind: "undef", Name: "h", Sp: 6 << 2}, ag(0), def(hU, "redef-after-undef"), ag(0)}},
+		)
 	}
 	// ((lambda (y) x) 0): a lambda form whose body is a bare variable of the enclosing function, at a
 	// compile position and at a lazy position
@@ -1830,6 +2041,9 @@ func (sh *c08Shrinker) shrink(v *c08Variant, aspect string, limit int) (*c08Vari
 				}
 				for _, rep := range cands {
 					rep := rep
+					if rep.Kind == "kw" {
+						continue // a keyword is only meaningful in an argument list
+					}
 					k = 0
 					nroot := c08Rewrite(root, &k, t, func(*c08Expr) *c08Expr { return rep })
 					cand := append([]c08Step{}, cur...)
